@@ -1,4 +1,4 @@
-import Xp.Proofs.C01PT
+import Xp.Proofs.C03PT
 import Xp.Model.C04
 /-
 C03 — a failing composition pipeline is never destructive; garbage collection is exact.
@@ -6,6 +6,14 @@ C03 — a failing composition pipeline is never destructive; garbage collection 
 Uses the reconcile model of C01 (Xp/Model/C01.lean) and the pipeline interpreter of C04
 (Xp/Model/C04.lean): `pipelineOut` plugs the pipeline in as the function output of the
 function composer.
+
+Definitions used in the statements that live in the helper files:
+* Xp/Proofs/C03.lean — `Xp.C04.Diverges` (a step's `RunFunction` ends in an error: some round's
+  call errors, or the rounds are used up with the requirements still changing),
+  `Xp.C04.StepFails` (credentials missing ∨ `Diverges` ∨ fatal result), `Xp.Emits`;
+* Xp/Proofs/C03Fn.lean — `observePure` (ObserveComposedResources as a pure function of the
+  store), `ObservedAs` (what being in the observation means), `NoGc`;
+* Xp/Proofs/C03PT.lean — lemmas on the P&T associator.
 -/
 namespace Xp.C03
 open Xp.C01
@@ -180,8 +188,503 @@ theorem gcFn_requests (lrv : Nat) (os : List CObj) (k : P) (Q : Req → Prop)
       cases y <;> first | exact herr | exact Issues.ret _ | exact this
     cases x <;> first | exact herr | exact Issues.ret _ | exact inner
 
+/-! ### failure at any step index -/
+
+/-- `RunFunction` of a step ends in an error exactly when some round's call errors (before the
+requirements stabilise) or the allowed rounds are used up with the requirements still
+changing (`Diverges` spells this out round by round). -/
+theorem fetching_errs_iff (cluster : List Xp.C04.ClusterObj) (f : Xp.C04.Fn) (fuel : Nat) (req : Xp.C04.Request)
+    (prev : List (String × Xp.C04.Sel)) :
+    (Xp.C04.runFetching cluster f fuel req prev).2 = .err ↔ Xp.C04.Diverges cluster f fuel req prev :=
+  Xp.C04.runFetching_err_iff cluster f fuel req prev
+
+/-- a function whose requirements differ from the previous round's in every round never
+stabilises: `RunFunction` errors whatever the iteration bound is -/
+theorem never_stabilising_errs (cluster : List Xp.C04.ClusterObj) (f : Xp.C04.Fn)
+    (hf : ∀ req prev, ∃ rsp, f req = some rsp ∧ Xp.C04.hasFatal rsp.results = false ∧ rsp.reqs ≠ prev)
+    (fuel : Nat) (req : Xp.C04.Request) (prev : List (String × Xp.C04.Sel)) :
+    (Xp.C04.runFetching cluster f fuel req prev).2 = .err := by
+  rw [Xp.C04.runFetching_err_iff]
+  induction fuel generalizing req prev with
+  | zero => trivial
+  | succ n ih =>
+    obtain ⟨rsp, h1, h2, h3⟩ := hf req prev
+    exact Or.inr ⟨rsp, h1, h2, h3, ih _ _⟩
+
+/-- **Failure at any step index.** If the steps in front of step `s` succeed (whatever they
+do) and `s` lacks its credentials, or its call errors in some round, or its requirements
+never stabilise within the bound, or it returns a fatal result, then the pipeline as a whole
+fails, whatever follows `s`. -/
+theorem step_failure_fails (cluster : List Xp.C04.ClusterObj) (observed : List Xp.C04.Res)
+    (pre : List Xp.C04.Step) (s : Xp.C04.Step) (post : List Xp.C04.Step) (i : Nat) (st0 st : Xp.C04.PipeState)
+    (hpre : Xp.C04.runPipeline cluster observed pre i st0 = .done st)
+    (h : s.creds.any (·.2.isNone) = true ∨
+         Xp.C04.Diverges cluster s.fn (Xp.Gen.maxRequirementsIterations + 1) (Xp.C04.stepRequest observed st s) [] ∨
+         ∃ rsp, (Xp.C04.runFetching cluster s.fn (Xp.Gen.maxRequirementsIterations + 1)
+            (Xp.C04.stepRequest observed st s) []).2 = .ok rsp ∧ Xp.C04.hasFatal rsp.results = true) :
+    ∃ st' fatal, Xp.C04.runPipeline cluster observed (pre ++ s :: post) i st0 = .failed st' fatal :=
+  (Xp.C04.runPipeline_failed_iff cluster observed _ i st0).mpr ⟨pre, s, post, st, rfl, hpre, h⟩
+
+/-- A pipeline fails **iff** one of its steps fails after all earlier steps succeeded (so a
+pipeline none of whose steps fails completes, and the failing step may be any index). -/
+theorem pipeline_fails_iff (cluster : List Xp.C04.ClusterObj) (observed : List Xp.C04.Res)
+    (steps : List Xp.C04.Step) (i : Nat) (st0 : Xp.C04.PipeState) :
+    (∃ st' fatal, Xp.C04.runPipeline cluster observed steps i st0 = .failed st' fatal) ↔
+    ∃ pre s post st, steps = pre ++ s :: post ∧ Xp.C04.runPipeline cluster observed pre i st0 = .done st ∧
+      Xp.C04.StepFails cluster observed st s :=
+  Xp.C04.runPipeline_failed_iff cluster observed steps i st0
+
+/-- **No mutation when any step fails.** If, for every observation, some step of the pipeline
+(any index, possibly a different one per observation) fails after its predecessors succeeded,
+then under every fault plan, at every instant of the reconcile, no composed resource was
+created, updated or deleted and spec.resourceRefs is untouched. -/
+theorem step_failure_no_write (cluster : List Xp.C04.ClusterObj) (steps : List Xp.C04.Step) (ch : Choices)
+    (hfail : ∀ obs : Obs, ∃ pre s post st, steps = pre ++ s :: post ∧
+      Xp.C04.runPipeline cluster (obs.map toRes) pre 0 Xp.C04.initState = .done st ∧
+      Xp.C04.StepFails cluster (obs.map toRes) st s)
+    (plan : Plan) (s : St) :
+    ∀ s' ∈ reach sem plan 0 (reconcile (.fn (pipelineOut cluster steps) ch)) s, s'.refs = s.refs ∧ s'.objs = s.objs :=
+  failing_pipeline_no_write cluster steps ch
+    (fun obs => (Xp.C04.runPipeline_failed_iff cluster (obs.map toRes) steps 0 Xp.C04.initState).mpr (hfail obs)) plan s
+
+/-! ### the function composer never deletes what is still desired -/
+
+/-- The justification every garbage-collection request `(kind, name)` of the function composer
+has: the observation of the store the reconcile started from succeeded, the pipeline returned
+a desired state for it, and `(kind, name)` is an observed composed resource — referenced,
+existing, not controlled by someone else, annotated `a` — whose resource name `a` is not in
+that desired state. -/
+def FnGcJustified (out : Obs → FnOut) (s : St) (kind name : String) : Prop :=
+  ∃ obs ds a o, observePure s.objs s.refs [] = some obs ∧ out obs = .desired ds ∧ (a, o) ∈ obs ∧
+    o.kind = kind ∧ o.name = name ∧ (∀ d ∈ ds, d.rname ≠ a) ∧ ObservedAs s a o
+
+/-- every entry of an observation is a referenced, existing object that is not controlled by
+someone else, under its own (non-empty) annotation -/
+theorem observed_sound (s : St) (obs : Obs) (h : observePure s.objs s.refs [] = some obs) :
+    ∀ p ∈ obs, ObservedAs s p.1 p.2 :=
+  observePure_sound s s.refs [] obs (fun _ hr => hr) (fun _ hp => by cases hp) h
+
+/-- in a store satisfying the C01 invariant the observation misses nothing: every referenced,
+existing object that is not controlled by someone else is in it under its annotation -/
+theorem observed_complete (s : St) (hg : Good s) (obs : Obs) (h : observePure s.objs s.refs [] = some obs)
+    (o : CObj) (ho : o ∈ s.objs) (hr : key o ∈ s.refs) (hc : o.ctrl ≠ .other) :
+    o.annot ≠ "" ∧ (o.annot, o) ∈ obs := by
+  have h0 : ObsOKp s [] [] := by
+    refine ⟨?_, ?_, ?_⟩
+    · intro o _ h; cases h
+    · intro a o h; simp [obsLookup] at h
+    · intro p h; cases h
+  have hok : ObsOKp s ([] ++ s.refs) obs :=
+    observePure_complete hg s.refs [] [] obs (fun _ hr => hr) (by intro r h; cases h) h0 h
+  obtain ⟨hne, hl⟩ := hok.1 o ho (by simpa using hr) hc
+  exact ⟨hne, mem_of_obsLookup hl⟩
+
+/-- **Nothing still desired is ever targeted, under any fault plan, at any instant.** Every
+`delete` and every label-stripping `gcUpdate` the function-composer reconcile *issues*
+(whether or not it is applied, whatever the plan does before or after) targets an observed
+composed resource of this XR whose resource name is absent from the desired state the
+pipeline returned for that observation. -/
+theorem fn_gc_only_undesired (out : Obs → FnOut) (ch : Choices) (hgc : ∀ l x, x ∈ ch.gcOrder l → x ∈ l)
+    (plan : Plan) (s : St) :
+    ∀ e ∈ callLog sem plan 0 (reconcile (.fn out ch)) s, ∀ kind name,
+      (e.1 = .delete kind name ∨ e.1 = .gcUpdate kind name) → FnGcJustified out s kind name := by
+  let Q : Req → Prop := fun r => ∀ kind name, (r = .delete kind name ∨ r = .gcUpdate kind name) →
+    FnGcJustified out s kind name
+  have hQ : ∀ r, NoGc r → Q r := by
+    intro r hr kind name h
+    rcases h with rfl | rfl <;> exact absurd hr (by simp [NoGc])
+  have hem : Emits sem Q (reconcile (.fn out ch)) s := by
+    apply emits_reconcile hQ
+    intro lrv s' hobjs
+    show Emits sem Q (composeFn lrv s.refs out ch) s'
+    apply emits_composeFn hQ
+    intro obs ds hobs hout o ho
+    rw [hobjs] at hobs
+    obtain ⟨a, hm, hn⟩ := (gc_targets_exact obs ds o).mp (hgc _ _ ho)
+    have hj : FnGcJustified out s o.kind o.name :=
+      ⟨obs, ds, a, o, hobs, hout, hm, rfl, rfl, hn, observed_sound s obs hobs _ hm⟩
+    constructor
+    · intro kind name h
+      rcases h with h | h
+      · cases h
+      · cases h; exact hj
+    · intro kind name h
+      rcases h with h | h
+      · cases h; exact hj
+      · cases h
+  exact callLog_emits sem Q plan _ 0 s hem
+
+/-- Corollary, in the property's words: a composed resource that is observed and still desired
+is never the target of a `delete` or `gcUpdate` request — not at the end, not transiently,
+under no fault plan. -/
+theorem fn_desired_never_deleted (out : Obs → FnOut) (ch : Choices) (hgc : ∀ l x, x ∈ ch.gcOrder l → x ∈ l)
+    (plan : Plan) (s : St) (obs : Obs) (ds : List Desired)
+    (hobs : observePure s.objs s.refs [] = some obs) (hout : out obs = .desired ds)
+    (a : String) (o : CObj) (hm : (a, o) ∈ obs) (d : Desired) (hd : d ∈ ds) (hda : d.rname = a) :
+    ∀ e ∈ callLog sem plan 0 (reconcile (.fn out ch)) s, e.1 ≠ .delete o.kind o.name ∧ e.1 ≠ .gcUpdate o.kind o.name := by
+  intro e he
+  have key : ¬ FnGcJustified out s o.kind o.name := by
+    rintro ⟨obs', ds', a', o', hobs', hout', _, hk, hn, hnd, hoa'⟩
+    rw [hobs] at hobs'; cases hobs'
+    rw [hout] at hout'; cases hout'
+    have := (observedAs_key_unique (observed_sound s obs hobs _ hm) hoa' hk hn).2
+    exact hnd d hd (hda.trans this.symm)
+  exact ⟨fun h => key (fn_gc_only_undesired out ch hgc plan s e he _ _ (Or.inl h)),
+    fun h => key (fn_gc_only_undesired out ch hgc plan s e he _ _ (Or.inr h))⟩
+
+/-- The same for the pipeline of C04 plugged in as the function output: a composed resource
+whose resource name is in the final desired state of the pipeline run for this observation is
+never the target of a `delete` or `gcUpdate`, under any fault plan, at any instant. -/
+theorem pipeline_desired_never_deleted (cluster : List Xp.C04.ClusterObj) (steps : List Xp.C04.Step) (ch : Choices)
+    (hgc : ∀ l x, x ∈ ch.gcOrder l → x ∈ l) (plan : Plan) (s : St) (obs : Obs)
+    (hobs : observePure s.objs s.refs [] = some obs) (st : Xp.C04.PipeState)
+    (hrun : Xp.C04.runPipeline cluster (obs.map toRes) steps 0 Xp.C04.initState = .done st)
+    (a : String) (o : CObj) (hm : (a, o) ∈ obs) (r : Xp.C04.Res) (hr : r ∈ st.desired) (hra : r.rname = a) :
+    ∀ e ∈ callLog sem plan 0 (reconcile (.fn (pipelineOut cluster steps) ch)) s,
+      e.1 ≠ .delete o.kind o.name ∧ e.1 ≠ .gcUpdate o.kind o.name :=
+  fn_desired_never_deleted (pipelineOut cluster steps) ch hgc plan s obs (st.desired.map toDesired) hobs
+    (by simp [pipelineOut, hrun]) a o hm (toDesired r) (List.mem_map.mpr ⟨r, hr, rfl⟩) hra
+
+/-- an object that is not in the observation at all — controlled by someone else, unreferenced,
+or missing — is never targeted either -/
+theorem fn_foreign_never_deleted (out : Obs → FnOut) (ch : Choices) (hgc : ∀ l x, x ∈ ch.gcOrder l → x ∈ l)
+    (plan : Plan) (s : St) (kind name : String)
+    (h : (⟨kind, name⟩ : Ref) ∉ s.refs ∨ findObj s.objs kind name = none ∨
+         ∃ o, findObj s.objs kind name = some o ∧ o.ctrl = .other) :
+    ∀ e ∈ callLog sem plan 0 (reconcile (.fn out ch)) s, e.1 ≠ .delete kind name ∧ e.1 ≠ .gcUpdate kind name := by
+  intro e he
+  have key : ¬ FnGcJustified out s kind name := by
+    rintro ⟨_, _, a', o', _, _, _, hk, hn, _, hoa'⟩
+    subst hk; subst hn
+    rcases h with h | h | ⟨o, h, hc⟩
+    · exact h hoa'.ref
+    · rw [hoa'.found] at h; cases h
+    · rw [hoa'.found] at h; cases h; exact hoa'.notForeign hc
+  exact ⟨fun h => key (fn_gc_only_undesired out ch hgc plan s e he _ _ (Or.inl h)),
+    fun h => key (fn_gc_only_undesired out ch hgc plan s e he _ _ (Or.inr h))⟩
+
+/-- **Exactness on a fault-free run.** If the fault-free reconcile succeeds — or merely gets as
+far as persisting the new references — then the observation succeeded, the pipeline returned
+a desired state for it, and the `delete` (and `gcUpdate`) requests applied are exactly those
+for the observed composed resources whose resource name is absent from that desired state. -/
+theorem fn_gc_exact (out : Obs → FnOut) (ch : Choices) (hgc : ∀ l x, x ∈ ch.gcOrder l ↔ x ∈ l) (s : St)
+    (hdone : (run sem Plan.allOk 0 (reconcile (.fn out ch)) s).2 = some .success ∨
+             ∃ v rf, Req.patchRefs v rf ∈ applied sem Plan.allOk 0 (reconcile (.fn out ch)) s) :
+    ∃ obs ds, observePure s.objs s.refs [] = some obs ∧ out obs = .desired ds ∧
+      ∀ kind name,
+        (Req.delete kind name ∈ applied sem Plan.allOk 0 (reconcile (.fn out ch)) s ↔
+          ∃ a o, (a, o) ∈ obs ∧ o.kind = kind ∧ o.name = name ∧ ∀ d ∈ ds, d.rname ≠ a) ∧
+        (Req.gcUpdate kind name ∈ applied sem Plan.allOk 0 (reconcile (.fn out ch)) s ↔
+          ∃ a o, (a, o) ∈ obs ∧ o.kind = kind ∧ o.name = name ∧ ∀ d ∈ ds, d.rname ≠ a) := by
+  let C : Req → Prop := fun r => ∃ v rf, r = .patchRefs v rf
+  have hget : ∀ k n, ¬ C (.getObj k n) := by rintro k n ⟨_, _, h⟩; cases h
+  have hst : ∀ l, ¬ C (.statusUpdate l) := by rintro l ⟨_, _, h⟩; cases h
+  have hreach : Reached C (reconcile (.fn out ch)) s := by
+    rcases hdone with h | ⟨v, rf, h⟩
+    · exact Or.inl h
+    · exact Or.inr ⟨_, h, v, rf, rfl⟩
+  obtain ⟨lrv, s', hobjs, hr1, hsub1⟩ := reached_reconcile (C := C) (fun r hc => Or.inr (Or.inl hc)) _ s hreach
+  change Reached C (composeFn lrv s.refs out ch) s' at hr1
+  change ∀ r ∈ okApplied (composeFn lrv s.refs out ch) s', _ at hsub1
+  rw [composeFn_eq] at hr1 hsub1
+  obtain ⟨obs, hobs, hr2, hsub2⟩ := reached_observeFn hget hst s' lrv _ _ _ hr1
+  rw [hobjs] at hobs
+  cases hout : out obs with
+  | failed => rw [composeTail_failed hout] at hr2; exact absurd hr2 (not_reached_onError hst)
+  | desired ds =>
+    rw [composeTail_desired hout] at hr2 hsub2
+    obtain ⟨named, _, hsub3⟩ := reached_renderFn hget hst s' lrv obs _ _ _ _ hr2
+    refine ⟨obs, ds, hobs, hout, ?_⟩
+    have hback : ∀ kind name, FnGcJustified out s kind name →
+        ∃ a o, (a, o) ∈ obs ∧ o.kind = kind ∧ o.name = name ∧ ∀ d ∈ ds, d.rname ≠ a := by
+      rintro kind name ⟨obs', ds', a, o, hobs', hout', hm, hk, hn, hnd, _⟩
+      rw [hobs] at hobs'; cases hobs'
+      rw [hout] at hout'; cases hout'
+      exact ⟨a, o, hm, hk, hn, hnd⟩
+    have hfwd : ∀ kind name, (∃ a o, (a, o) ∈ obs ∧ o.kind = kind ∧ o.name = name ∧ ∀ d ∈ ds, d.rname ≠ a) →
+        Req.gcUpdate kind name ∈ applied sem Plan.allOk 0 (reconcile (.fn out ch)) s ∧
+        Req.delete kind name ∈ applied sem Plan.allOk 0 (reconcile (.fn out ch)) s := by
+      rintro kind name ⟨a, o, hm, rfl, rfl, hnd⟩
+      have ht : o ∈ ch.gcOrder ((obs.filter fun p => !(ds.any (·.rname = p.1))).map (·.2)) :=
+        (hgc _ _).mpr ((gc_targets_exact obs ds o).mpr ⟨a, hm, hnd⟩)
+      exact ⟨hsub1 _ (hsub2 _ (hsub3 _ (okApplied_gcFn lrv _ _ s' o ht).1)),
+        hsub1 _ (hsub2 _ (hsub3 _ (okApplied_gcFn lrv _ _ s' o ht).2))⟩
+    intro kind name
+    constructor
+    · constructor
+      · intro h
+        obtain ⟨e, he, hreq⟩ := applied_sub_callLog sem Plan.allOk _ 0 s _ h
+        exact hback _ _ (fn_gc_only_undesired out ch (fun l x => (hgc l x).mp) Plan.allOk s e he _ _ (Or.inl hreq))
+      · exact fun h => (hfwd _ _ h).2
+    · constructor
+      · intro h
+        obtain ⟨e, he, hreq⟩ := applied_sub_callLog sem Plan.allOk _ 0 s _ h
+        exact hback _ _ (fn_gc_only_undesired out ch (fun l x => (hgc l x).mp) Plan.allOk s e he _ _ (Or.inr hreq))
+      · exact fun h => (hfwd _ _ h).1
+
+/-! ### the patch-and-transform associator -/
+
+/-- The justification every garbage-collection request `(kind, name)` of the P&T composer has:
+`(kind, name)` is a (named) reference of the XR whose object, in the store the reconcile
+started from, is annotated with a name that is no template of the composition, and is not
+controlled by someone else. -/
+def PtGcJustified (tmpl : List Desired) (s : St) (kind name : String) : Prop :=
+  ∃ o, (⟨kind, name⟩ : Ref) ∈ s.refs ∧ name ≠ "" ∧ findObj s.objs kind name = some o ∧ o.annot ≠ "" ∧
+    (∀ t ∈ tmpl, t.rname ≠ o.annot) ∧ o.ctrl ≠ .other
+
+/-- **P&T: only references whose template is gone are ever targeted, under any fault plan, at
+any instant.** Every `delete` and `gcUpdate` the P&T reconcile issues targets a referenced
+object whose annotation names no template and which is not controlled by another owner. -/
+theorem pt_gc_only_templateless (tmpl : List Desired) (fresh : List String) (ver : String) (plan : Plan) (s : St) :
+    ∀ e ∈ callLog sem plan 0 (reconcile (.pt tmpl fresh ver)) s, ∀ kind name,
+      (e.1 = .delete kind name ∨ e.1 = .gcUpdate kind name) → PtGcJustified tmpl s kind name := by
+  let Q : Req → Prop := fun r => ∀ kind name, (r = .delete kind name ∨ r = .gcUpdate kind name) →
+    PtGcJustified tmpl s kind name
+  have hQ : ∀ r, NoGc r → Q r := by
+    intro r hr kind name h
+    rcases h with rfl | rfl <;> exact absurd hr (by simp [NoGc])
+  have hem : Emits sem Q (reconcile (.pt tmpl fresh ver)) s := by
+    apply emits_reconcile hQ
+    intro lrv s' hobjs
+    show Emits sem Q (composePT lrv s.refs tmpl fresh ver) s'
+    apply emits_composePT hQ tmpl fresh ver lrv s s' hobjs
+    intro kk n o hr hn hf ha ht hc
+    have hj : PtGcJustified tmpl s kk n :=
+      ⟨o, hr, hn, hf, ha, fun t htm he => by
+        have := List.any_eq_false.mp ht t htm
+        simp [he] at this, hc⟩
+    constructor
+    · intro kind name h
+      rcases h with h | h
+      · cases h
+      · cases h; exact hj
+    · intro kind name h
+      rcases h with h | h
+      · cases h; exact hj
+      · cases h
+  exact callLog_emits sem Q plan _ 0 s hem
+
+/-- Corollary: an object whose annotation names an existing template, or that is controlled by
+another owner, or that is not referenced, is never the target of a `delete` or `gcUpdate`. -/
+theorem pt_templated_never_deleted (tmpl : List Desired) (fresh : List String) (ver : String) (plan : Plan) (s : St)
+    (kind name : String)
+    (h : (⟨kind, name⟩ : Ref) ∉ s.refs ∨ findObj s.objs kind name = none ∨
+         ∃ o, findObj s.objs kind name = some o ∧ (o.ctrl = .other ∨ ∃ t ∈ tmpl, t.rname = o.annot)) :
+    ∀ e ∈ callLog sem plan 0 (reconcile (.pt tmpl fresh ver)) s, e.1 ≠ .delete kind name ∧ e.1 ≠ .gcUpdate kind name := by
+  intro e he
+  have key : ¬ PtGcJustified tmpl s kind name := by
+    rintro ⟨o', hr, _, hf, _, hnt, hc⟩
+    rcases h with h | h | ⟨o, h, h2⟩
+    · exact h hr
+    · rw [hf] at h; cases h
+    · rw [hf] at h; cases h
+      rcases h2 with h2 | ⟨t, ht, hta⟩
+      · exact hc h2
+      · exact hnt t ht hta
+  exact ⟨fun h => key (pt_gc_only_templateless tmpl fresh ver plan s e he _ _ (Or.inl h)),
+    fun h => key (pt_gc_only_templateless tmpl fresh ver plan s e he _ _ (Or.inr h))⟩
+
+/-- **P&T exactness on a fault-free run.** If the fault-free reconcile succeeds — or merely
+gets as far as persisting the new references — the `delete` (and `gcUpdate`) requests applied
+are exactly those for the named references whose object exists and is annotated with a name
+that is no template; each of these objects is annotated and not controlled by another owner
+(otherwise the association would have aborted). -/
+theorem pt_gc_exact (tmpl : List Desired) (fresh : List String) (ver : String) (s : St)
+    (hdone : (run sem Plan.allOk 0 (reconcile (.pt tmpl fresh ver)) s).2 = some .success ∨
+             ∃ rv v rf, Req.updateXR rv v rf ∈ applied sem Plan.allOk 0 (reconcile (.pt tmpl fresh ver)) s) :
+    ∀ kind name,
+      (Req.delete kind name ∈ applied sem Plan.allOk 0 (reconcile (.pt tmpl fresh ver)) s ↔
+        ∃ o, (⟨kind, name⟩ : Ref) ∈ s.refs ∧ name ≠ "" ∧ findObj s.objs kind name = some o ∧
+          ∀ t ∈ tmpl, t.rname ≠ o.annot) ∧
+      (Req.gcUpdate kind name ∈ applied sem Plan.allOk 0 (reconcile (.pt tmpl fresh ver)) s ↔
+        ∃ o, (⟨kind, name⟩ : Ref) ∈ s.refs ∧ name ≠ "" ∧ findObj s.objs kind name = some o ∧
+          ∀ t ∈ tmpl, t.rname ≠ o.annot) ∧
+      (∀ o, (⟨kind, name⟩ : Ref) ∈ s.refs → name ≠ "" → findObj s.objs kind name = some o →
+        (∀ t ∈ tmpl, t.rname ≠ o.annot) → o.annot ≠ "" ∧ o.ctrl ≠ .other) := by
+  let C : Req → Prop := fun r => ∃ rv v rf, r = .updateXR rv v rf
+  have hget : ∀ k n, ¬ C (.getObj k n) := by rintro k n ⟨_, _, _, h⟩; cases h
+  have hst : ∀ l, ¬ C (.statusUpdate l) := by rintro l ⟨_, _, _, h⟩; cases h
+  have hgu : ∀ k n, ¬ C (.gcUpdate k n) := by rintro k n ⟨_, _, _, h⟩; cases h
+  have hdel : ∀ k n, ¬ C (.delete k n) := by rintro k n ⟨_, _, _, h⟩; cases h
+  have hreach : Reached C (reconcile (.pt tmpl fresh ver)) s := by
+    rcases hdone with h | ⟨rv, v, rf, h⟩
+    · exact Or.inl h
+    · exact Or.inr ⟨_, h, rv, v, rf, rfl⟩
+  obtain ⟨lrv, s', hobjs, hr1, hsub1⟩ := reached_reconcile (C := C) (fun r hc => Or.inr (Or.inr hc)) _ s hreach
+  change Reached C (composePT lrv s.refs tmpl fresh ver) s' at hr1
+  change ∀ r ∈ okApplied (composePT lrv s.refs tmpl fresh ver) s', _ at hsub1
+  rw [composePT_eq] at hr1 hsub1
+  have hfwd : ∀ kind name, (∃ o, (⟨kind, name⟩ : Ref) ∈ s.refs ∧ name ≠ "" ∧ findObj s.objs kind name = some o ∧
+        ∀ t ∈ tmpl, t.rname ≠ o.annot) →
+      Req.gcUpdate kind name ∈ applied sem Plan.allOk 0 (reconcile (.pt tmpl fresh ver)) s ∧
+      Req.delete kind name ∈ applied sem Plan.allOk 0 (reconcile (.pt tmpl fresh ver)) s := by
+    rintro kind name ⟨o, hr, hn, hf, hnt⟩
+    have ht : tmpl.any (·.rname = o.annot) = false := by
+      apply List.any_eq_false.mpr
+      intro t htm
+      simpa using hnt t htm
+    have := reached_associatePT hget hst hgu hdel lrv tmpl _ s.refs [] s' hr1 ⟨kind, name⟩ hr hn o
+      (by rw [hobjs]; exact hf) ht
+    exact ⟨hsub1 _ this.1, hsub1 _ this.2⟩
+  have hback : ∀ kind name, PtGcJustified tmpl s kind name →
+      ∃ o, (⟨kind, name⟩ : Ref) ∈ s.refs ∧ name ≠ "" ∧ findObj s.objs kind name = some o ∧
+        ∀ t ∈ tmpl, t.rname ≠ o.annot := by
+    rintro kind name ⟨o, hr, hn, hf, _, hnt, _⟩
+    exact ⟨o, hr, hn, hf, hnt⟩
+  intro kind name
+  refine ⟨⟨?_, fun h => (hfwd _ _ h).2⟩, ⟨?_, fun h => (hfwd _ _ h).1⟩, ?_⟩
+  · intro h
+    obtain ⟨e, he, hreq⟩ := applied_sub_callLog sem Plan.allOk _ 0 s _ h
+    exact hback _ _ (pt_gc_only_templateless tmpl fresh ver Plan.allOk s e he _ _ (Or.inl hreq))
+  · intro h
+    obtain ⟨e, he, hreq⟩ := applied_sub_callLog sem Plan.allOk _ 0 s _ h
+    exact hback _ _ (pt_gc_only_templateless tmpl fresh ver Plan.allOk s e he _ _ (Or.inr hreq))
+  · intro o hr hn hf hnt
+    have h := (hfwd kind name ⟨o, hr, hn, hf, hnt⟩).2
+    obtain ⟨e, he, hreq⟩ := applied_sub_callLog sem Plan.allOk _ 0 s _ h
+    obtain ⟨o', _, _, hf', ha, _, hc⟩ := pt_gc_only_templateless tmpl fresh ver Plan.allOk s e he _ _ (Or.inl hreq)
+    rw [hf] at hf'; cases hf'
+    exact ⟨ha, hc⟩
+
 /-! ### non-vacuity -/
 example : ∃ st fatal, Xp.C04.runPipeline [] [] [⟨"s0", fun _ => none, "", []⟩] 0 Xp.C04.initState = .failed st fatal :=
   ⟨_, _, rfl⟩
+
+/-- step 0 succeeds (it desires "a"); step 1 asks for different requirements in every round -/
+def exOkFn : Xp.C04.Fn := fun _ => some ⟨[⟨"a", "KA", "", 1, true⟩], none, [], [], [], []⟩
+def exFlipFn : Xp.C04.Fn := fun req =>
+  some ⟨req.desired, none, [], if req.extra = [] then [("x", ⟨"K", "n", []⟩)] else [], [], []⟩
+def exFatalFn : Xp.C04.Fn := fun req => some ⟨req.desired, none, [], [], [⟨.fatal, "boom", false⟩], []⟩
+def exErrFn : Xp.C04.Fn := fun _ => none
+
+/-- the hypotheses of `step_failure_fails` are met with a non-empty successful prefix: step 1
+never stabilises -/
+example : ∃ st, Xp.C04.runPipeline [] [] [⟨"s0", exOkFn, "", []⟩] 0 Xp.C04.initState = .done st ∧
+    Xp.C04.StepFails [] [] st ⟨"s1", exFlipFn, "", []⟩ :=
+  ⟨_, rfl, Or.inr (Or.inl ((Xp.C04.runFetching_err_iff _ _ _ _ _).mp rfl))⟩
+
+/-- ... step 2 returns a fatal result after two successful steps -/
+example : ∃ st, Xp.C04.runPipeline [] [] [⟨"s0", exOkFn, "", []⟩, ⟨"s1", exOkFn, "", []⟩] 0 Xp.C04.initState = .done st ∧
+    Xp.C04.StepFails [] [] st ⟨"s2", exFatalFn, "", []⟩ :=
+  ⟨_, rfl, Or.inr (Or.inr ⟨_, rfl, rfl⟩)⟩
+
+/-- ... step 1's call errors; and the whole pipelines fail -/
+example : ∃ st, Xp.C04.runPipeline [] [] [⟨"s0", exOkFn, "", []⟩] 0 Xp.C04.initState = .done st ∧
+    Xp.C04.StepFails [] [] st ⟨"s1", exErrFn, "", []⟩ :=
+  ⟨_, rfl, Or.inr (Or.inl (Or.inl rfl))⟩
+
+example : ∃ st fatal, Xp.C04.runPipeline [] [] [⟨"s0", exOkFn, "", []⟩, ⟨"s1", exFlipFn, "", []⟩, ⟨"s2", exOkFn, "", []⟩]
+    0 Xp.C04.initState = .failed st fatal := ⟨_, _, rfl⟩
+
+/-- a pipeline that does not fail exists too (the `iff` of `pipeline_fails_iff` is not one-sided) -/
+example : ∃ st, Xp.C04.runPipeline [] [] [⟨"s0", exOkFn, "", []⟩, ⟨"s1", exOkFn, "", []⟩] 0 Xp.C04.initState = .done st :=
+  ⟨_, rfl⟩
+
+/-- An XR with three referenced composed resources: `xr-a` (resource name "a", still desired /
+template exists), `xr-b` (resource name "b", no longer desired / template gone) and `xr-f`
+(controlled by someone else). -/
+def gcObjA : CObj := ⟨"KA", "xr-a", "a", .xr, false, false, 1, true⟩
+def gcObjB : CObj := ⟨"KB", "xr-b", "b", .xr, false, false, 0, true⟩
+def gcObjF : CObj := ⟨"KF", "xr-f", "f", .other, false, false, 0, false⟩
+def gcStore : St :=
+  { xrFin := true, xrRv := 3,
+    refs := [⟨"KA", "xr-a"⟩, ⟨"KB", "xr-b"⟩, ⟨"KF", "xr-f"⟩],
+    objs := [gcObjA, gcObjB, gcObjF] }
+def gcOut : Obs → FnOut := fun _ => .desired [⟨"a", "KA", 1, true⟩]
+def gcCh : Choices := ⟨"v1", [], id, id⟩
+
+/-- the observation: the foreign-controlled object is skipped -/
+def gcObs : Obs := [("a", gcObjA), ("b", gcObjB)]
+theorem gcStore_observed : observePure gcStore.objs gcStore.refs [] = some gcObs := by decide
+
+/-- the fault-free function-composer run: "a" kept, "b" collected, the foreign one skipped -/
+theorem gcStore_fn_run :
+    (applied sem Plan.allOk 0 (reconcile (.fn gcOut gcCh)) gcStore).take 7 =
+      [.getXR, .getObj "KA" "xr-a", .getObj "KB" "xr-b", .getObj "KF" "xr-f",
+       .gcUpdate "KB" "xr-b", .delete "KB" "xr-b",
+       .patchRefs "v1" (refsOf [⟨⟨"a", "KA", 1, true⟩, "xr-a", false⟩])] := rfl
+
+/-- the hypothesis of `fn_gc_exact` is met -/
+example : ∃ v rf, Req.patchRefs v rf ∈ applied sem Plan.allOk 0 (reconcile (.fn gcOut gcCh)) gcStore :=
+  ⟨"v1", refsOf [⟨⟨"a", "KA", 1, true⟩, "xr-a", false⟩], List.mem_of_mem_take (by rw [gcStore_fn_run]; simp)⟩
+
+/-- the justification of `fn_gc_only_undesired` holds of the undesired resource, and of neither
+the desired nor the foreign-controlled one -/
+example : FnGcJustified gcOut gcStore "KB" "xr-b" :=
+  ⟨gcObs, _, "b", gcObjB, gcStore_observed, rfl, by decide, rfl, rfl, by decide,
+    ⟨by decide, by decide, by decide, by decide, rfl, by decide⟩⟩
+
+example (plan : Plan) : ∀ e ∈ callLog sem plan 0 (reconcile (.fn gcOut gcCh)) gcStore,
+    e.1 ≠ .delete "KA" "xr-a" ∧ e.1 ≠ .gcUpdate "KA" "xr-a" :=
+  fn_desired_never_deleted gcOut gcCh (fun _ _ h => h) plan gcStore gcObs _ gcStore_observed rfl "a" gcObjA (by decide)
+    ⟨"a", "KA", 1, true⟩ (by decide) rfl
+
+example (plan : Plan) : ∀ e ∈ callLog sem plan 0 (reconcile (.fn gcOut gcCh)) gcStore,
+    e.1 ≠ .delete "KF" "xr-f" ∧ e.1 ≠ .gcUpdate "KF" "xr-f" :=
+  fn_foreign_never_deleted gcOut gcCh (fun _ _ h => h) plan gcStore _ _ (Or.inr (Or.inr ⟨gcObjF, by decide, rfl⟩))
+
+/-- P&T with the single template "a" on the same store: "b" is collected, then the association
+stops at the foreign-controlled `xr-f` (whose annotation names no template) without touching it -/
+def gcTmpl : List Desired := [⟨"a", "KA", 1, true⟩]
+
+theorem gcStore_pt_run :
+    applied sem Plan.allOk 0 (reconcile (.pt gcTmpl [] "v1")) gcStore =
+      [.getXR, .getObj "KA" "xr-a", .getObj "KB" "xr-b", .gcUpdate "KB" "xr-b", .delete "KB" "xr-b",
+       .getObj "KF" "xr-f", .statusUpdate (some 3)] := rfl
+
+example : PtGcJustified gcTmpl gcStore "KB" "xr-b" :=
+  ⟨gcObjB, by decide, by decide, by decide, by decide, by decide, by decide⟩
+
+example (plan : Plan) : ∀ e ∈ callLog sem plan 0 (reconcile (.pt gcTmpl [] "v1")) gcStore,
+    (e.1 ≠ .delete "KA" "xr-a" ∧ e.1 ≠ .gcUpdate "KA" "xr-a") ∧ (e.1 ≠ .delete "KF" "xr-f" ∧ e.1 ≠ .gcUpdate "KF" "xr-f") :=
+  fun e he =>
+    ⟨pt_templated_never_deleted gcTmpl [] "v1" plan gcStore _ _
+        (Or.inr (Or.inr ⟨gcObjA, by decide, Or.inr ⟨_, List.mem_cons_self .., rfl⟩⟩)) e he,
+     pt_templated_never_deleted gcTmpl [] "v1" plan gcStore _ _
+        (Or.inr (Or.inr ⟨gcObjF, by decide, Or.inl rfl⟩)) e he⟩
+
+/-- without the foreign-controlled reference the P&T run gets past the association (the
+hypothesis of `pt_gc_exact` is met): "a" kept, "b" collected -/
+def gcStore2 : St := { gcStore with refs := [⟨"KA", "xr-a"⟩, ⟨"KB", "xr-b"⟩] }
+
+theorem gcStore2_pt_run :
+    (applied sem Plan.allOk 0 (reconcile (.pt gcTmpl [] "v1")) gcStore2).take 6 =
+      [.getXR, .getObj "KA" "xr-a", .getObj "KB" "xr-b", .gcUpdate "KB" "xr-b", .delete "KB" "xr-b",
+       .updateXR 3 "v1" [⟨"KA", "xr-a"⟩]] := rfl
+
+example : ∃ rv v rf, Req.updateXR rv v rf ∈ applied sem Plan.allOk 0 (reconcile (.pt gcTmpl [] "v1")) gcStore2 :=
+  ⟨3, "v1", [⟨"KA", "xr-a"⟩], List.mem_of_mem_take (by rw [gcStore2_pt_run]; simp)⟩
+
+/-! ### the success hypothesis of the exactness theorems is necessary
+
+Exactness without "the composition gets past rendering / association" is false of the model (and
+of the code it mirrors: both return the error before, or in the middle of, the collection). -/
+
+/-- function composer: the pipeline succeeds and "b" is undesired, but a new resource "c" cannot
+be named (the generator gives up), so the fault-free reconcile errors before collecting -/
+theorem fn_gc_unconditional_exactness_fails_witness :
+    observePure gcStore.objs gcStore.refs [] = some gcObs ∧
+    ("b", gcObjB) ∈ gcObs ∧ (∀ d ∈ [(⟨"a", "KA", 1, true⟩ : Desired), ⟨"c", "KA", 0, false⟩], d.rname ≠ "b") ∧
+    Req.delete "KB" "xr-b" ∉ applied sem Plan.allOk 0
+      (reconcile (.fn (fun _ => .desired [⟨"a", "KA", 1, true⟩, ⟨"c", "KA", 0, false⟩]) gcCh)) gcStore := by
+  refine ⟨gcStore_observed, by decide, by decide, ?_⟩
+  have : applied sem Plan.allOk 0
+      (reconcile (.fn (fun _ => .desired [⟨"a", "KA", 1, true⟩, ⟨"c", "KA", 0, false⟩]) gcCh)) gcStore =
+      [.getXR, .getObj "KA" "xr-a", .getObj "KB" "xr-b", .getObj "KF" "xr-f", .statusUpdate (some 3)] := rfl
+  rw [this]; simp
+
+/-- P&T: the foreign-controlled, template-less `xr-f` is referenced *before* `xr-b`; the
+association errors at `xr-f` and `xr-b` (referenced, existing, controllable, template gone) is
+not collected in this reconcile -/
+theorem pt_gc_unconditional_exactness_fails_witness :
+    let s : St := { gcStore with refs := [⟨"KF", "xr-f"⟩, ⟨"KB", "xr-b"⟩] }
+    (⟨"KB", "xr-b"⟩ : Ref) ∈ s.refs ∧ findObj s.objs "KB" "xr-b" = some gcObjB ∧ gcObjB.ctrl ≠ .other ∧
+    (∀ t ∈ gcTmpl, t.rname ≠ gcObjB.annot) ∧
+    Req.delete "KB" "xr-b" ∉ applied sem Plan.allOk 0 (reconcile (.pt gcTmpl [] "v1")) s := by
+  intro s
+  refine ⟨by decide, by decide, by decide, by decide, ?_⟩
+  have : applied sem Plan.allOk 0 (reconcile (.pt gcTmpl [] "v1")) s =
+      [.getXR, .getObj "KF" "xr-f", .statusUpdate (some 3)] := rfl
+  rw [this]; simp
 
 end Xp.C03
